@@ -268,8 +268,10 @@ persistent_place(PersistentStorage *store, uint32_t address)
 void
 persistent_buffer(PersistentStorage *store, unsigned char *buffer, size_t n)
 {
-    store->buffer.data = buffer;
-    store->buffer.size = n;
+    /* A buffer without room cannot make progress; fall back to the internal
+     * one-octet buffer, like with no buffer at all. */
+    store->buffer.data = (n > 0u) ? buffer : NULL;
+    store->buffer.size = (n > 0u) ? n : 1u;
 }
 
 /**
